@@ -118,7 +118,7 @@ def check_binary(ctx, dom, cfp, P, Q, rp, rq, fam, two_t_curve):
     ctx.case("add." + rel, key=key, sample=dict(curve=c.key(), A=sa, B=sb, expected_sum=E, points_equal=P == Q) if ctx.want("add." + rel) else None)
     try:
         Rr = A + B
-        bad = judge_point(Rr, E, p)
+        bad = judge_point(Rr, E, p) or None
     except Exception as e:
         bad = "raised %s: %s" % (type(e).__name__, e)
     if bad:
@@ -140,6 +140,28 @@ def check_binary(ctx, dom, cfp, P, Q, rp, rq, fam, two_t_curve):
             m = KF_IDEQ + "|" + "==".join((rp, rq))
         ctx.violation(m if m.startswith(KF_IDEQ) else mech(m, tt, "eq|%s|%s|%s|%s" % (rep_class(rp), rep_class(rq), rel, tpat(P, Q))), "%s: (%s == %s) = %r, != gives %r; points equal: %r (p=%d a=%d b=%d)" % (fam, sa, sb, got_eq, got_ne, want, p, c.a, c.b),
                       dict(curve=c.key(), P=P, Q=Q, reps=(rp, rq)), _rp(dom, ["%s == %s" % (sa, sb)]))
+
+
+    # ---- augmented assignment: `T = A; T += B` rebinds T to the sum; the objects A and B keep denoting P and Q (points are values:
+    # the library itself hands out its operands as results - INFINITY + P is P -, so an in-place += would change a point someone else holds)
+    if bad is None and not tt and _ALT["i"] % 2 == 0:
+        ctx.case("iadd", key="%s|%s|%s" % (rel, rep_class(rp), rep_class(rq)))
+        try:
+            A2, B2 = build(cfp, P, rp, rng), build(cfp_b, Q, rq, rng)
+            T = A2
+            T += B2
+            bad2 = judge_point(T, E, p)
+            if not bad2:
+                for nm_, O_, V_ in (("left", A2, P), ("right", B2, Q)):
+                    if V_ is not None and not (rp == rq == "INF"):
+                        if (O_ == build(cfp, V_, "j1", rng)) is not True:
+                            bad2 = "%s operand no longer denotes %r after `T = A; T += B`" % (nm_, V_)
+                    elif V_ is None and O_ is INFINITY and (INFINITY == Point(None, None, None)) is not True:
+                        bad2 = "INFINITY changed"
+        except Exception as e:
+            bad2 = "raised %s: %s" % (type(e).__name__, e)
+        if bad2:
+            ctx.violation("augmented_addition_wrong:" + rel, "%s: T = %s; T += %s: %s (p=%d a=%d b=%d)" % (fam, sa, sb, bad2, p, c.a, c.b), dict(curve=c.key(), P=P, Q=Q, reps=(rp, rq), expected=E))
 
 
 def check_unary(ctx, dom, cfp, P, rp, fam, two_t_curve):
